@@ -183,6 +183,22 @@ def generate(rng, tier, run):
             for op in c['ops']:
                 op.update({'stmt': rng.choice(idxs), 'mode': 'lit', 'vals': [], 'real_parse': rng.random() < 0.3})
                 op.pop('fault', None)
+    elif rng.random() < 0.18:
+        # swarm class "one family": every thread runs statements of one family (two threads inside the same
+        # helper, cast, overload, post-processing pass or lazily built index at the same time)
+        famtag = rng.choice(['cast', 'distinct', 'acct', 'wide', 'multiop', 'postfinal', 'subq', 'agg'])
+        cand = [i for i, s_ in enumerate(POOL) if famtag in s_[2]]
+        idxs = []
+        for i in rng.sample(cand, min(len(cand), rng.randint(2, 4))):
+            tpl, types_, tags = POOL[i]
+            pool.append({'t': tpl, 'types': list(types_), 'tags': list(tags), 'names': [f'p{k}' for k in range(len(types_))]})
+            idxs.append(len(pool) - 1)
+        for c in clients:
+            for op in c['ops']:
+                j = rng.choice(idxs)
+                op.update({'stmt': j, 'mode': rng.choice(['pos', 'named', 'lit']) if pool[j]['types'] else 'lit',
+                           'vals': [world.enc(v) for v in c09.gen_vals(rng, pool[j])], 'real_parse': False})
+                op.pop('fault', None)
     elif rng.random() < 0.2:
         # swarm class "FROM family": every thread runs FROM-qualified statements (OPEN/CLOSE/CLEAR in
         # different combinations) over one shared connection, i.e. over copies of one registered table
